@@ -7,12 +7,19 @@ export CARGO_NET_OFFLINE=true
 mkdir -p .work evidence/replays coq/Generated
 [ -f harness/Cargo.lock ] || cp /repo/Cargo.lock harness/Cargo.lock
 status=0
-for d in harness/crates/c*; do
-  name="dl-$(basename "$d")"
+# the properties claimed in MANIFEST.json (others may be work in progress)
+claimed=$(python3 -c "import json;print(' '.join(c['property_id'].lower() for c in json.load(open('MANIFEST.json'))['checks']))")
+for m in $claimed; do
+  name="dl-$m"
+  [ -d "harness/crates/$m" ] || continue
   (cd harness && cargo build --release --offline -q -p "$name") || { echo "setup: build of $name failed"; status=1; }
 done
 sh coq/gen_project.sh
-targets=$(cd coq && ls Properties/*.v | sed 's/\.v$/.vo/')
+targets=""
+for m in $claimed; do
+  id=$(echo "$m" | tr c C)
+  [ -f "coq/Properties/$id.v" ] && targets="$targets Properties/$id.vo"
+done
 (cd coq && timeout 3000 make -j16 $targets) || { echo "setup: coq build failed"; status=1; }
 echo "setup done (status $status)"
 exit $status
